@@ -177,7 +177,7 @@ theorem mergeFill_list (p : Array Elem) (center right : Nat) : ∀ (n : Nat) (L 
           | cons b B' => exact ⟨b, B', rfl⟩
         have harr' : arr.toList = A ++ b :: (B' ++ C) := by simpa using harr
         unfold mergeFill mergeLoop
-        simp only [show l ≤ center ∧ r ≤ right by omega, if_true,
+        simp only [show l ≤ center ∧ r ≤ right by omega,
           rd_eq_ok.mpr (reads_head hrl), rd_eq_ok.mpr (reads_head hrr), cmp_nonpos]
         by_cases hc : x.1 ≤ y.1
         · obtain ⟨hlt, hset⟩ := set_decomp (y := x) harr' hA
@@ -188,7 +188,7 @@ theorem mergeFill_list (p : Array Elem) (center right : Nat) : ∀ (n : Nat) (L 
           unfold mergeFill at e1
           refine ⟨arr', e1, ?_⟩
           rw [e2]
-          simp [List.merge, le, hc]
+          simp [le, hc]
         · obtain ⟨hlt, hset⟩ := set_decomp (y := y) harr' hA
           simp only [hc, if_false, wr_of_lt hlt]
           obtain ⟨arr', e1, e2⟩ := ih (x :: L') R' l (r + 1) (idx + 1) (arr.setIfInBounds idx y)
@@ -197,7 +197,7 @@ theorem mergeFill_list (p : Array Elem) (center right : Nat) : ∀ (n : Nat) (L 
           unfold mergeFill at e1
           refine ⟨arr', e1, ?_⟩
           rw [e2]
-          simp [List.merge, le, hc]
+          simp [le, hc]
 
 theorem sorted_merge {L R : List Elem} (hL : Sorted L) (hR : Sorted R) :
     Sorted (List.merge L R le) := by
